@@ -81,7 +81,7 @@ def sql_in_body(F, b):
             elif "c" in a or "m" in a:
                 fl = fl or flow_of(b)
                 for sv in const_strs(fl.slice_operand(a, through_all_calls=False), F):
-                    if sv and re.search(r"\b(SELECT|INSERT|UPDATE|DELETE|REPLACE|PRAGMA|CREATE)\b", sv):
+                    if sv and re.search(r"\b(SELECT|INSERT|UPDATE|DELETE|REPLACE|PRAGMA|CREATE|ALTER|DROP)\b", sv):
                         out.append((i, sv))
     return out
 
